@@ -247,6 +247,9 @@ pub use self::value::Value;
 pub use self::macros::__context;
 pub use self::vm::State;
 
+#[cfg(feature = "verif_hooks")]
+pub mod verif_hooks;
+
 /// This module gives access to the low level machinery.
 ///
 /// This module is only provided by the `unstable_machinery` feature and does not
